@@ -2,7 +2,7 @@
 and the provenance of every field of the conflict error.  All role-anchored on MIR facts."""
 import re
 
-from .mir import Mir, Exprs, canon, strip_transparent, borrow_root, natural_loops, Call, place_str, control_deps_transitive
+from .mir import Mir, Exprs, canon, strip_transparent, borrow_root, natural_loops, Call, place_str, control_deps_transitive, EACH_ADAPTORS, closure_loop_context, lift_closure_canon
 
 NARROWING = ("skip", "take", "step_by", "filter", "take_while", "skip_while", "nth", "last", "find", "rev", "filter_map", "map_while", "position", "peekable", "fuse", "scan", "flat_map", "zip", "chain", "cycle")
 MAP_WRITERS = ("insert", "entry", "extend", "get_mut", "remove", "remove_entry", "retain", "clear", "drain", "values_mut", "iter_mut", "get_or_insert_with", "try_insert", "get_many_mut", "get_disjoint_mut", "extract_if", "raw_entry_mut")
@@ -198,14 +198,24 @@ def check_scan(st, res, rule):
             tr = (c.callee or {}).get("trait") or ""
             if nm in NARROWING and ("Iterator" in (c.rpath or "") or "iter" in (c.rpath or "")):
                 res.violate(rule, "narrowing|%s|%s" % (fn.path, nm), c.where, "`%s` on the way from the table builder to the conflict detector: not every state/item is examined" % nm)
-        for (h, body) in natural_loops(fn):
+        # a scan is a `for` loop, or `ITER.try_for_each(closure)` / `ITER.for_each(closure)` with a closure on the way
+        # to the detector (the same iteration; try_for_each stops at the first Err as `?` in a loop body does)
+        scans = [(h, body, None) for (h, body) in natural_loops(fn)]
+        for c in fn.calls():
+            if (c.rpath or "").endswith(EACH_ADAPTORS) and len(c.args) == 2:
+                ce = strip_transparent(Exprs(fn).operand(c.args[1]))
+                if ce.k == "agg" and ce.a[0] == "closure" and ce.a[1] in st.chain:
+                    scans.append((c.bb, {c.bb}, c))
+        for (h, body, each) in scans:
             n += 1
             ex = Exprs(fn)
             nexts = [fn.call_at(b) for b in body if fn.blocks[b]["term"]["k"] == "call" and (Call(fn, b, fn.blocks[b]["term"]).rpath or "").endswith("::next")]
             desc = []
             okl = False
-            for nx in nexts:
-                it = canon(ex.operand(nx.args[0]))
+            its = [canon(ex.operand(nx.args[0])) for nx in nexts]
+            if each is not None:
+                its = ["IntoIterator@I::into_iter(%s)" % canon(ex.operand(each.args[0]))]
+            for it in its:
                 desc.append(it)
                 if re.match(r"^IntoIterator@\w+::into_iter\(Range::Range\{const\(0_usize\), (slice|Vec)::len\((Deref@Oset::deref\()?param1\.machine\.states\)?\)\}\)$", it):
                     okl = True
@@ -281,6 +291,10 @@ def check_guards(st, res, rule):
         if fn.key == st.writer.key:
             continue
         bp = [i + 1 for i, ty in enumerate(fn.inputs) if ty["head"].endswith("TableBuilder")]
+        cctx = closure_loop_context(mir, fn) if fn.kind == "Closure" else None
+        if cctx is not None:
+            # a loop body written as a closure: its guards are read in the parent's terms
+            bp = [i + 1 for i, ty in enumerate(cctx[0].inputs) if ty["head"].endswith("TableBuilder")]
         if not bp:
             continue
         ex = None
@@ -299,6 +313,8 @@ def check_guards(st, res, rule):
                 ce = canon(ex.operand(t_["discr"]))
                 if ce.startswith("discr(Try@Result::branch("):
                     continue
+                if cctx is not None:
+                    ce = lift_closure_canon(ce, cctx)
                 if any(re.search(r"\bparam%d\b" % b, ce) for b in bp):
                     bad.append(ce)
             res.inst(rule, "guard|%s->%s" % (fn.path.rsplit("::", 1)[-1], (c.rpath or "?").rsplit("::", 1)[-1]), c.where, True, "%d builder-dependent guards" % len(bad))
